@@ -27,21 +27,13 @@ Theorem rcb_len_mismatch : forall sh p,
 Proof. exact (len_mismatch_WP rcb_guards eq_refl). Qed.
 Print Assumptions rcb_len_mismatch.
 
-(* PARTIAL: Rib at /repo HEAD builds the oriented bounding box of the points and returns Ok(())
-   when there is no point BEFORE rcb() compares the lengths, so the statement needs "at least
-   one point".  What is missing is refuted below ([rib_empty_points_refuted], on a hand-written
-   copy of the current guard list) and observed on the implementation (known-finding class
-   C20-rib-empty-points). *)
-Theorem rib_len_mismatch_partial : forall sh p,
-  sh_points sh <> 0 ->
+(* Rib: since fix f977178 the lengths are compared before the oriented bounding box is built
+   (the list also holds rcb()'s own, now redundant, comparisons further down). *)
+Theorem rib_len_mismatch : forall sh p,
   length (sh_wsigns sh) <> length p \/ sh_points sh <> length p ->
   exists expected actual, run_guards rib_guards sh p = (OErr (InputLenMismatch expected actual), p).
-Proof. exact (len_mismatch_WP_nonempty rib_guards eq_refl). Qed.
-Print Assumptions rib_len_mismatch_partial.
-
-Theorem rib_empty_points_refuted : exists sh p,
-  sh_points sh <> length p /\ run_guards rib_guards_head sh p = (OEarlyOk, p).
-Proof. exact rib_head_refuted. Qed.
+Proof. exact (len_mismatch_WP rib_guards eq_refl). Qed.
+Print Assumptions rib_len_mismatch.
 
 Theorem greedy_len_mismatch : forall sh p,
   length (sh_wsigns sh) <> length p ->
@@ -158,6 +150,10 @@ Proof. exact fm_pinned_refuted. Qed.
 Theorem arcswap_refuted : exists sh p, sh_adj sh <> length p /\
   run_guards arcswap_guards_pinned sh p = (OEarlyOk, p).
 Proof. exact arcswap_pinned_refuted. Qed.
+(* Rib before fix f977178 (found by this property's harness): no point => Ok(()) first *)
+Theorem rib_refuted : exists sh p, sh_points sh <> length p /\
+  run_guards rib_guards_before_f977178 sh p = (OEarlyOk, p).
+Proof. exact rib_before_f977178_refuted. Qed.
 
 Example pinned_orders_rejected :
   map (reports_mismatch [InWeights] facts_ids_ok)
@@ -165,7 +161,7 @@ Example pinned_orders_rejected :
   = [false; false; false; false]
   /\ map (reports_mismatch [InWeights; InAdjacency] no_facts) [fm_guards_pinned; arcswap_guards_pinned]
   = [false; false]
-  /\ reports_mismatch [InWeights; InPoints] no_facts rib_guards_head = false.
+  /\ reports_mismatch [InWeights; InPoints] no_facts rib_guards_before_f977178 = false.
 Proof. repeat split. Qed.
 
 (* ---- non-vacuity: concrete calls satisfying the hypotheses (garbage 7s in the array), and
